@@ -10,11 +10,14 @@
    instruction other than TRAP — whatever its addressing mode and operands, on every path
    including the error paths — leaves the machine in user mode and leaves every memory word
    outside user space, every device, the supervisor stack pointer, the MCR and the
-   internal-register mappings exactly as they were.  TRAP and interrupts enter the OS through
+   internal-register mappings exactly as they were; and over runs of any length of such steps
+   (C09_user_step_confined, C09_user_run_confined; the devices change only by being polled).
+   TRAP and interrupts enter the OS through
    the vector table: their privileged accesses are exactly those of [enter] (C08_entry_refines). *)
 From Coq Require Import ZArith List Bool.
 From Model Require Import Bits Word Instr Sim.
-From Proofs Require Import SimAccess SimUser.
+From Proofs Require Import SimAccess SimUser IrqProofs SimUserRun.
+Import ListNotations.
 Open Scope Z_scope.
 
 Theorem C09_user_context_unprivileged : forall s,
@@ -65,6 +68,47 @@ Theorem C09_user_fetch_execute_confined : forall e s0 s,
 Proof. exact user_fetch_exec_confined. Qed.
 Print Assumptions C09_user_fetch_execute_confined.
 
+(* whole steps and runs.  [UP s0 s] is [U s0 s] up to the devices, which the machine itself polls at
+   every boundary ([PolledFrom]); the user program has no part in that.  One boundary in user mode at
+   which no interrupt is taken and the word at the PC is not a TRAP — whatever the instruction,
+   operands and outcome (completed or any error): *)
+Theorem C09_user_step_confined : forall e s0 s,
+  UP s0 s -> (forall v p, ~ takes_irq e s v p) ->
+  (forall i, decode (w_data (mget (s_mem s) (s_pc s))) = DOk i -> is_trap i = false) ->
+  UP s0 (fst (step_inner e s)) /\ s_devs (fst (step_inner e s)) = polled_devs e (s_devs s) (e_draws e).
+Proof. exact user_step_confined. Qed.
+Print Assumptions C09_user_step_confined.
+(* runs of any length (each step as [step_in] performs it: observer emptied, then [step_inner]) *)
+Theorem C09_user_run_confined : forall s0 s t, UserRun s t -> UP s0 s -> UP s0 t /\ PolledFrom (s_devs s) (s_devs t).
+Proof. exact user_run_confined. Qed.
+Print Assumptions C09_user_run_confined.
+Theorem C09_user_run_def : forall s t, UserRun s t <->
+  s = t \/ exists e,
+    (forall v p, ~ takes_irq e s v p) /\
+    (forall i, decode (w_data (mget (s_mem s) (s_pc s))) = DOk i -> is_trap i = false) /\
+    UserRun (fst (step_inner e (upd_obs s []))) t.
+Proof.
+  intros s t. split.
+  - intros R. destruct R as [s|e s t NT NTR R]; [left; reflexivity|right; exists e; repeat split; assumption].
+  - intros [E|(e & NT & NTR & R)]; [subst; apply ur_refl|exact (ur_next e s t NT NTR R)].
+Qed.
+Print Assumptions C09_user_run_def.
+Theorem C09_run_invariant_meaning : forall s0 s, UP s0 s ->
+  psr_privileged (s_psr s) = false /\ s_flags s = s_flags s0 /\ s_saved_sp s = s_saved_sp s0 /\
+  s_mcr s = s_mcr s0 /\ s_ireg s = s_ireg s0 /\
+  (forall a, 0 <= a -> in_user a = false -> mget (s_mem s) a = mget (s_mem s0) a).
+Proof. exact UP_meaning. Qed.
+Print Assumptions C09_run_invariant_meaning.
+(* non-vacuity, evaluated in Coq: ADD then STI through a pointer into OS space; the run exists, the
+   store is denied, the OS word is untouched *)
+Theorem C09_run_example :
+  UP ex_user_state ex_user_state /\
+  exists t, UserRun ex_user_state t /\ UP ex_user_state t /\
+    s_instrs t = 1 /\ rget (s_regs t) 0 = new_init 1 /\
+    snd (step_inner ex_free (upd_obs (fst (step_inner ex_free (upd_obs ex_user_state []))) [])) = inr (BErr AccessViolation) /\
+    mget (s_mem t) 512 = new_init 777.
+Proof. exact ex_user_run. Qed.
+Print Assumptions C09_run_example.
 (* the invariant is what it should be, and holds initially for every user-mode state *)
 Theorem C09_invariant_meaning : forall s0 s, U s0 s ->
   psr_privileged (s_psr s) = false /\ s_devs s = s_devs s0 /\ s_saved_sp s = s_saved_sp s0 /\ s_mcr s = s_mcr s0
